@@ -101,6 +101,21 @@ Plan Gen(uint64_t seed, Tier tier)
         }
         p.ops.push_back(op);
     }
+    if (rng.chance(1, 4)) {
+        // prune configuration: long padded base chain over 64 KiB block files, manual prune operations in the workload
+        p.knobs["prune"] = 1;
+        p.knobs["fast_prune"] = 1;
+        p.knobs["base"] = rng.range(395, 430);
+        p.knobs["pad_min"] = 1500;
+        p.knobs["pad_max"] = rng.range(2500, 6000);
+        int nprune = (int)rng.range(2, 5);
+        for (int i = 0; i < nprune; ++i) {
+            Op f;
+            f.kind = OP_PRUNE;
+            f.a = {(int64_t)rng.below(60)};
+            p.ops.insert(p.ops.begin() + rng.below(p.ops.size() + 1), f);
+        }
+    }
     if (rng.chance(1, 4) && !p.ops.empty()) {
         // storage-fault configuration (kept apart from the fault-free ones by this knob)
         p.knobs["io_faults"] = 1;
@@ -145,7 +160,7 @@ struct CrashSim {
         o.with_mempool = true;
         o.mempool_check_ratio = 0;
         o.fast_prune = ctx.knob("fast_prune", 0) != 0;
-        o.prune_target = ctx.knob("prune", 0) ? 1 : 0;
+        o.prune_target = ctx.knob("prune", 0) ? node::BlockManager::PRUNE_TARGET_MANUAL : 0;
         o.regtest.fastprune = o.fast_prune;
         // Keep the node in initial-block-download mode: outside IBD every full flush starts, with probability 1/320, the
         // asynchronous "utxocompact" thread (CCoinsViewDB::CompactFullAsync), whose I/O would interleave with the main
@@ -290,6 +305,8 @@ struct CrashSim {
             if (cs.node->Fatal()) return; // the flush reported an error (injected I/O fault): it did not complete
             flush_marks.emplace_back(simfs::LogSize(), cs.node->Running() ? cs.TipIdx() : last_tip);
         };
+        cs.coinbase_pad_min = (int)ctx.knob("pad_min", 0);
+        cs.coinbase_pad_max = (int)ctx.knob("pad_max", 0);
         cs.Setup();
         {
             LOCK(cs_main);
@@ -304,6 +321,22 @@ struct CrashSim {
         for (const Op& op : ctx.plan.ops) {
             if (op.kind == OP_CRASH) { crashes.push_back(op); continue; }
             if (op.kind == OP_INVALIDATE || op.kind == OP_RECONSIDER) continue;
+            if (op.kind == OP_PRUNE) {
+                if (!ctx.knob("prune", 0)) continue;
+                int tip_h = cs.node->Height();
+                int target = tip_h - 288 - (int)op.mod(0, 60);
+                if (target < 1) continue;
+                op_start = simfs::LogSize();
+                {
+                    LOCK(cs_main);
+                    PruneBlockFilesManual(cs.node->cs(), target);
+                }
+                bool pruned = WITH_LOCK(cs_main, return cs.node->cm().m_blockman.m_have_pruned);
+                if (pruned) ctx.probe("manual_prune_deleted_files");
+                ctx.evf("prune up to %d (tip %d) have_pruned=%d", target, tip_h, (int)pruned);
+                if (cs.node->Fatal()) ctx.failf("node-fatal-error", "after manual prune");
+                continue;
+            }
             if (op.kind == OP_IOFAULT) {
                 // storage fault: the n-th next write / sync / fallocate fails with ENOSPC or EIO (armed once per run)
                 static const simfs::FaultKind kinds[] = {simfs::FaultKind::ENOSPC_WRITE, simfs::FaultKind::EIO_WRITE, simfs::FaultKind::EIO_SYNC, simfs::FaultKind::ENOSPC_FALLOC};
